@@ -252,9 +252,11 @@ def c23_table():
     return _state["table"]
 
 
-def _mk(kind):
+def _mk(kind, pre=None):
+    """a fresh empty queue object, or one PRELOADED through its constructor (Durq(vals) / Dusq(vals))"""
     from hio.base.hier import Durq, Dusq
-    return Durq() if kind == "durq" else Dusq()
+    cls = Durq if kind == "durq" else Dusq
+    return cls() if pre is None else cls([c23_val(i) for i in pre])
 
 
 def _observe(kind, s, hold, keys):
@@ -292,8 +294,9 @@ def c23_run(case):
                 s.close()
                 s = c23_open()
                 hold = Hold(_hold_subery=s)
-                for k in keys:
-                    hold[k] = _mk(kind)
+                pres = op[1] if len(op) > 1 else [None] * len(keys)
+                for k, pre in zip(keys, pres):
+                    hold[k] = _mk(kind, pre)
                 res = True
             else:
                 q = hold[keys[op[1]]]
@@ -306,6 +309,8 @@ def c23_run(case):
                 elif name == "extend":
                     vals = [c23_val(i) for i in op[2]]
                     res = q.extend(vals) if kind == "durq" else q.update(vals)
+                elif name == "sync":
+                    res = q.sync(force=bool(op[2]))
                 elif name == "clear":
                     res = q.clear()
                 elif name == "remove" and kind == "dusq":
